@@ -47,6 +47,8 @@ fn main() {
     run!("hellos with extension lists", cat::hellos_with_extension_lists().into_iter().filter(|w| w.lens.first().map_or(false, |l| l.label == "hs_len")).collect(), parse_tls_message_handshake);
     run!("magic hellos", cat::magic_hellos().into_iter().filter(|w| w.lens.first().map_or(false, |l| l.label == "hs_len")).collect(), parse_tls_message_handshake);
     run!("many", cat::extension_lists_many().into_iter().take(4).collect(), parse_tls_extensions, parse_tls_client_hello_extensions);
+    // extension lists longer than 2^16 bytes (an offset or a count kept in 16 bits differs between implementations)
+    run!("long lists", [16384usize, 16385, 20000].iter().map(|&n| { let mut w = W::new(); for i in 0..n { w.bytes(&[0x00, if i % 2 == 0 { 0x17 } else { 0x16 }, 0x00, 0x00]); } w }).collect(), parse_tls_extensions, parse_tls_client_hello_extensions, parse_tls_server_hello_extensions);
     run!("foreign", cat::foreign_protocols().into_iter().step_by(9).map(|b| { let mut w = W::new(); w.bytes(&b[..b.len().min(1500)]); w }).collect(), parse_tls_plaintext, parse_tls_raw_record);
     run!("dtls records", cat::dtls_records(), parse_dtls_plaintext_record, parse_dtls_plaintext_records);
     run!("dtls handshake", cat::dtls_handshake_messages(), parse_dtls_message_handshake);
